@@ -437,6 +437,7 @@ type Result struct {
 	Stack  string
 	Events sdk.Events
 	Resp   interface{}
+	Gas    uint64 // gas charged to the block's meter by this operation
 }
 
 func (r Result) OK() bool { return r.Err == nil && r.Panic == nil }
@@ -454,6 +455,10 @@ func (r Result) ErrString() string {
 // observable outcome (error text, events, response bytes, application hash) reduced to digests.
 // Used by the determinism replays (C17); nil otherwise.
 var Recorder func(line, full string)
+
+// ShadowRuns makes every operation run once on a discarded copy of the state before it runs for real
+// (C17: a node that simulated or checked a transaction first must execute it exactly like one that did not).
+var ShadowRuns bool
 
 func digest(parts ...[]byte) string {
 	h := sha256.New()
@@ -496,7 +501,7 @@ func record(res Result) {
 	} else if res.Err != nil {
 		errS = res.Err.Error()
 	}
-	line := fmt.Sprintf("op ok=%v err=%s events=%s resp=%s", res.OK(), digest([]byte(errS)), digest(eventsBytes(res.Events)), digest(rb))
+	line := fmt.Sprintf("op ok=%v gas=%d err=%s events=%s resp=%s", res.OK(), res.Gas, digest([]byte(errS)), digest(eventsBytes(res.Events)), digest(rb))
 	var full []string
 	full = append(full, "err="+errS)
 	for _, e := range res.Events {
@@ -510,6 +515,18 @@ func record(res Result) {
 // RunOn executes fn on a branch of ctx that is written back only if fn returns nil and
 // does not panic: baseapp's per-transaction rule (runTx: cache, recover, write on success).
 func RunOn(ctx sdk.Context, fn func(ctx sdk.Context) (interface{}, error)) (res Result) {
+	if ShadowRuns {
+		// what a node does when it serves a simulation or a CheckTx of the same operation first:
+		// run it on a copy that is thrown away. Nothing of it may show in the real execution.
+		sctx, _ := ctx.CacheContext()
+		sctx = sctx.WithEventManager(sdk.NewEventManager()).WithGasMeter(storetypes.NewInfiniteGasMeter())
+		func() {
+			defer func() { _ = recover() }()
+			_, _ = fn(sctx)
+		}()
+	}
+	g0 := ctx.GasMeter().GasConsumed()
+	defer func() { res.Gas = ctx.GasMeter().GasConsumed() - g0 }()
 	cctx, write := ctx.CacheContext()
 	cctx = cctx.WithEventManager(sdk.NewEventManager())
 	func() {
@@ -526,6 +543,7 @@ func RunOn(ctx sdk.Context, fn func(ctx sdk.Context) (interface{}, error)) (res 
 		res.Events = cctx.EventManager().Events()
 		ctx.EventManager().EmitEvents(res.Events)
 	}
+	res.Gas = ctx.GasMeter().GasConsumed() - g0
 	record(res)
 	return res
 }
